@@ -69,6 +69,11 @@ def sig_many(a: Any, b: Any, c: Any = "c", d: Any = None) -> Any:
     return [a, b, c, d]
 
 
+def opt3(a: int = 0, b: int = 10, c: int = 100) -> int:
+    """Leaf with optional arguments (parallelize with common_args and heterogeneous per-call dicts)."""
+    return a + b + c
+
+
 def noargs() -> str:
     return "done"
 
@@ -146,6 +151,10 @@ def _eval(node: Any, path: str, attempt: int, me: str) -> Any:
     if kind == "group":
         t = _this_task("prog")
         grp = t.parallelize([(ch, f"{path}.{i}") for i, ch in enumerate(node[2])])
+        return node[1] + sum(grp.results)
+    if kind == "par":
+        # ["par", base, common_args, [per-call dicts]]: optional arguments omitted by a call take the function default
+        grp = _this_task("opt3").parallelize([dict(d) for d in node[3]], common_args=dict(node[2]))
         return node[1] + sum(grp.results)
     raise ValueError(f"bad node {node!r}")
 
